@@ -158,6 +158,11 @@ Definition load_g (F : ofiles) : option omen :=
   then Some (mk_omen (f_ngram F) guesser_max_level (f_ip F) (f_cp F) (f_ln F))
   else None.
 
+(* the record load_g produces for the directory written from T (when every
+   level is within range, see OmenLevelProofs.ol_load_g_write) *)
+Definition gview (T : ttab) : omen :=
+  mk_omen (tt_ngram T) guesser_max_level (write_ip T) (write_cp T) (tt_ln T).
+
 (* ------------------------------------------------------------------ *)
 (* Well-formed trainer tables: what AlphabetLookup + apply_smoothing build   *)
 
